@@ -33,18 +33,24 @@ ASSUMPTIONS = [
     'schema node trees are out of the statement',
 ]
 FLOORS = {'tree:2ns+attr': (0.10, 'tree:config'), 'tree:comment-or-pi': (0.30, 'tree:config'),
-          'tree:empty-text': (0.10, 'tree:config'), 'tree:doc-misc': (0.03, 'tree:config'),
-          'ops:attr-or-ns-operand': (0.15, 'ops:case')}
+          'tree:empty-text': (0.10, 'tree:config'), 'tree:doc-misc': (0.10, 'tree:config'),
+          'ops:attr-or-ns-operand': (0.10, 'ops:case'), 'tree:et-xml-in-namespaces': (0.08, 'tree:config'),
+          'tree:et-namespaces-dict-extended-after-build': (0.06, 'tree:config'),
+          'tree:lxml-elem-root/fragment-None/post': (0.01, 'tree:config'), 'ops:raw-objects': (0.35, 'ops:case'),
+          'ops:raw-comment-or-pi-operand': (0.08, 'ops:case')}
 
 NS_ARGS = [None, {}, {'p': 'urn:p'}, {'': 'urn:d'}, {'': 'urn:d', 'p': 'urn:p', 'q': 'urn:q'}, {'xml': gx.XML_NS},
            {'xml': gx.XML_NS, 'p': 'urn:p', 'q': 'urn:q', 's': 'urn:p'},
-           {'p': 'urn:p', 'q': 'urn:q', 's': 'urn:p', '': 'urn:d'}]
+           {'p': 'urn:p', 'q': 'urn:q', 's': 'urn:p', '': 'urn:d'},
+           # the key 'xml' in the middle / at the end (dict(parser.namespaces), Selector.namespaces always contain it)
+           {'p': 'urn:p', 'xml': gx.XML_NS, 'q': 'urn:q'}, {'': 'urn:d', 'q': 'urn:q', 'xml': gx.XML_NS}]
 
 _cfg = st.fixed_dictionaries({
     'backend': st.sampled_from(['et', 'lxml']),
     'rootkind': st.sampled_from(['elem', 'doc']),
     'fragment': st.sampled_from([None, True, False]),
-    'builder': st.sampled_from(['get_node_tree', 'build', 'context']),
+    # context-mutate: the caller's namespaces dict is extended after XPathContext() and before the lazy parts are requested
+    'builder': st.sampled_from(['get_node_tree', 'build', 'context', 'context-mutate']),
     'namespaces': st.sampled_from(NS_ARGS),
     'force': st.lists(st.tuples(st.integers(0, 30), st.sampled_from(['n', 'a'])).map(list), max_size=3),
 })
@@ -52,13 +58,13 @@ _cfg = st.fixed_dictionaries({
 
 def _tree_cases(max_elems):
     return st.fixed_dictionaries({
-        'spec': gx.tree_specs(max_elems=max_elems, max_depth=4, max_attrs=4, misc_weight=3),
+        'spec': gx.tree_specs(max_elems=max_elems, max_depth=4, max_attrs=4, misc_weight=3, doc_misc='balanced'),
         'cfgs': st.lists(_cfg, min_size=6, max_size=6),
     })
 
 
 _idx = st.integers(0, 400)
-_OPS = ['is', '<<', '>>', 'union', '|', 'intersect', 'except', 'root', 'innermost', 'outermost']
+_OPS = ['is', '<<', '>>', 'union', '|', 'intersect', 'except', 'root', 'innermost', 'outermost', 'var-parent', 'item-parent']
 
 
 def _ops_cases(max_elems):
@@ -69,6 +75,8 @@ def _ops_cases(max_elems):
             'op': st.sampled_from(_OPS),
             'A': st.lists(_idx, min_size=0, max_size=6),
             'B': st.lists(_idx, min_size=0, max_size=6),
+            # raw: operands / context item given as the tree's own etree objects (elements, comments, PIs, the ElementTree)
+            'raw': st.booleans(),
         }), min_size=8, max_size=8),
     })
 
@@ -82,20 +90,29 @@ _KIND = {'document': 'document', 'element': 'element', 'attribute': 'attribute',
 # --------------------------------------------------------------------------
 
 def build_impl(spec, cfg):
-    """-> (Built, top node). Exceptions escape to the caller."""
+    """-> (Built, top node). Exceptions escape to the caller.  Built.ns_passed is the very dict given to elementpath,
+    Built.ns_orig a copy taken before the call."""
     from elementpath import get_node_tree, build_node_tree, build_lxml_node_tree, XPathContext
     b = gx.materialize(spec, cfg['backend'])
     root_obj = b.tree if cfg['rootkind'] == 'doc' else b.root
     ns, fr = cfg['namespaces'], cfg['fragment']
+    D = None if ns is None else dict(ns)
+    b.ns_passed, b.ns_orig, b.ns_added = D, None if ns is None else dict(ns), {}
     if cfg['builder'] == 'get_node_tree':
-        top = get_node_tree(root_obj, namespaces=None if ns is None else dict(ns), fragment=fr)
+        top = get_node_tree(root_obj, namespaces=D, fragment=fr)
     elif cfg['builder'] == 'build':
         if cfg['backend'] == 'lxml':
             top = build_lxml_node_tree(root_obj, fragment=fr)
         else:
-            top = build_node_tree(root_obj, None if ns is None else dict(ns), fragment=fr)
+            top = build_node_tree(root_obj, D, fragment=fr)
     else:
-        top = XPathContext(root_obj, namespaces=None if ns is None else dict(ns), fragment=fr).root
+        ctx = XPathContext(root_obj, namespaces=D, fragment=fr)
+        top = ctx.root
+        if cfg['builder'] == 'context-mutate' and D is not None:
+            # XPathContext documents no aliasing of its argument: the caller goes on using (and extending) its own dict
+            b.ns_orig_after_build = dict(D)
+            b.ns_added = {'zz': 'urn:zz', 'yy': 'urn:yy', 'xml': gx.XML_NS}
+            D.update(b.ns_added)
     return b, top
 
 
@@ -199,7 +216,8 @@ def compare_tree(spec, cfg, b, top, ref: xdm.RefTree, discs: list, rec=None):
             got = [(x.name or '', x.value) for x in nsn]
             if sorted(got) != sorted((x.name, x.value) for x in rn.nss) or \
                     any(x.node_kind != 'namespace' for x in nsn):
-                D('namespace-nodes', sorted((x.name, x.value) for x in rn.nss), sorted(got), f'at {addr}')
+                D('namespace-nodes' + ('/after-namespaces-dict-extended' if cfg['builder'] == 'context-mutate' else ''),
+                  sorted((x.name, x.value) for x in rn.nss), sorted(got), f'at {addr}')
                 ok_struct[0] = False
             else:
                 ref.adopt_order(addr, ns_prefixes=[g[0] for g in got])
@@ -273,9 +291,20 @@ def judge_tree_one(spec, cfg, rec: Recorder | None = None) -> list[Disc]:
         b = top = None
     if top is not None:
         compare_tree(spec, cfg, b, top, ref, discs, rec)
+        if b.ns_orig is not None:
+            want = dict(b.ns_orig, **b.ns_added)
+            if b.ns_passed != want or list(b.ns_passed) != list(want):
+                discs.append(Disc(f'C02/tree/{cfg["backend"]}/namespaces-argument-modified/{cfg["builder"]}', want, b.ns_passed,
+                                  f'cfg={cfg}'))
     if rec is not None:
         cl = set(gx.spec_classes(spec))
         classes = ['tree:config', f'tree:{cfg["backend"]}', f'tree:top-{tc["top"]}', f'tree:builder-{cfg["builder"]}']
+        if cfg['backend'] == 'et' and cfg['namespaces'] and 'xml' in cfg['namespaces']:
+            classes.append('tree:et-xml-in-namespaces')
+        if cfg['backend'] == 'et' and cfg['builder'] == 'context-mutate' and cfg['namespaces'] is not None:
+            classes.append('tree:et-namespaces-dict-extended-after-build')
+        if cfg['backend'] == 'lxml':
+            classes.append('tree:lxml-%s-root/fragment-%s/%s' % (cfg['rootkind'], cfg['fragment'], 'pre' * bool(spec['pre']) + 'post' * bool(spec['post']) or 'nomisc'))
         many_ns = any(len(n.nss) >= 3 and n.attrs for n in ref.nodes if n.kind == 'element')
         if many_ns:
             classes.append('tree:2ns+attr')
@@ -309,6 +338,16 @@ ep_find = xdm.ep_find
 adopt_all = xdm.adopt_all
 
 
+def _rawable(ref, cfg, n):
+    """the nearest node (self or parent) that a caller can pass as a raw etree object: element, comment, PI, or the
+    ElementTree that was given as root"""
+    if n.kind in ('attribute', 'namespace', 'text'):
+        n = n.parent
+    if n.kind == 'document' and cfg['rootkind'] != 'doc':
+        n = ref.root
+    return n
+
+
 def _ref_op(ref, op, A, B):
     """expected result: bool / None (empty) / list of nodes / 'error'"""
     if op in ('is', '<<', '>>'):
@@ -332,6 +371,10 @@ def _ref_op(ref, op, A, B):
         if len(A) > 1:
             return 'error'
         return [ref.top]
+    elif op == 'var-parent':
+        res = {id(x.parent): x.parent for x in A if x.parent is not None}
+    elif op == 'item-parent':
+        return [A[0].parent] if A[0].parent is not None else []
     elif op == 'innermost':
         anc = {id(y) for x in A for y in ref.axis(x, 'ancestor')}
         res = {k: v for k, v in sa.items() if k not in anc}
@@ -343,6 +386,10 @@ def _ref_op(ref, op, A, B):
 
 
 def _render_op(op):
+    if op == 'var-parent':
+        return '$A/..'
+    if op == 'item-parent':
+        return '..'
     if op in ('is', '<<', '>>', 'union', '|', 'intersect', 'except'):
         return f'$A {op} $B'
     return f'{op}($A)'
@@ -373,6 +420,7 @@ def judge_ops(case, rec: Recorder | None = None) -> list[Disc]:
             rec.cls('ops:skipped-structure-differs')
         return discs
     be = cfg['backend']
+    top0 = top
     for o in case['ops']:
         op = o['op']
         A = [ref.nodes[i % len(ref.nodes)] for i in o['A']]
@@ -381,13 +429,32 @@ def judge_ops(case, rec: Recorder | None = None) -> list[Disc]:
             A, B = A[:1] if o['A'] and o['A'][0] % 7 else A[:2], B[:1] if o['B'] and o['B'][0] % 5 else B[:2]
         if op == 'root':
             A = A[:1]
+        if op == 'item-parent':
+            A = A[:1] or [ref.top]
+        raw = bool(o.get('raw'))
+        if raw:
+            # every operand becomes a node that the caller can hold as an etree object
+            A, B = [_rawable(ref, cfg, x) for x in A], [_rawable(ref, cfg, x) for x in B]
         want = _ref_op(ref, op, A, B)
         expr = _render_op(op)
-        nA, nB = [ep_find(top, x.addr) for x in A], [ep_find(top, x.addr) for x in B]
-        kinds = 'with-attr-or-ns' if any(x.kind in ('attribute', 'namespace') for x in A + B) else 'tree-nodes-only'
+        kinds = ('raw-objects' if raw else 'with-attr-or-ns' if any(x.kind in ('attribute', 'namespace') for x in A + B)
+                 else 'tree-nodes-only')
         try:
             tok = _parser30().parse(expr)
-            ctx = XPathContext(top, variables={'A': nA, 'B': nB})
+            ns = None if cfg['namespaces'] is None else dict(cfg['namespaces'])
+            if raw:
+                shift = () if ref.top.kind == 'document' else (b.n_pre,)
+                obj = lambda x: b.tree if x.kind == 'document' else b.by_addr[shift + x.addr]
+                root_obj = b.tree if cfg['rootkind'] == 'doc' else b.root
+                kw = {'item': obj(A[0])} if op == 'item-parent' else {}
+                ctx = XPathContext(root_obj, namespaces=ns, fragment=cfg['fragment'],
+                                   variables={'A': [obj(x) for x in A], 'B': [obj(x) for x in B]}, **kw)
+                top = ctx.root
+            else:
+                top = top0
+                nA, nB = [ep_find(top, x.addr) for x in A], [ep_find(top, x.addr) for x in B]
+                kw = {'item': nA[0]} if op == 'item-parent' else {}
+                ctx = XPathContext(top, variables={'A': nA, 'B': nB}, **kw)
             got = list(tok.select(ctx))
         except ElementPathError as e:
             got = 'error'
@@ -424,7 +491,11 @@ def judge_ops(case, rec: Recorder | None = None) -> list[Disc]:
             classes = ['ops:case', f'ops:{op}']
             if any(x.kind in ('attribute', 'namespace') for x in A + B):
                 classes.append('ops:attr-or-ns-operand')
-            rec.case([spec, cfg['backend'], cfg['rootkind'], cfg['fragment'], op, [x.addr for x in A], [x.addr for x in B]],
+            if raw:
+                classes.append('ops:raw-objects')
+                if any(x.kind in ('comment', 'pi') for x in A + B):
+                    classes.append('ops:raw-comment-or-pi-operand')
+            rec.case([spec, cfg['backend'], cfg['rootkind'], cfg['fragment'], op, raw, [x.addr for x in A], [x.addr for x in B]],
                      nontrivial=distinct >= 2, classes=classes,
                      sample={'check': 'ops', 'xml': gx.to_xml(spec), 'expr': expr, 'A': [x.addr for x in A],
                              'B': [x.addr for x in B], 'expected': _show(want)})
